@@ -86,7 +86,9 @@ impl MemfsEntryOpts {
             0o40755
         });
 
-        // OR given mode with defaults for physical entries
+        // OR given mode with defaults for physical entries, any file type bits that came along
+        // with the mode (e.g. taken from another kind of entry) don't belong to this entry
+        let mode = mode & 0o7777;
         self.mode = if self.link {
             mode | 0o120000
         } else if self.file {
